@@ -3,7 +3,10 @@
 package bag
 
 import (
+	"encoding/json"
 	"io"
+	"strconv"
+	"strings"
 
 	"github.com/ohler55/ojg/sen"
 )
@@ -14,11 +17,41 @@ import (
 // state left over that makes later, unrelated parses fail.
 func senParse(buf []byte, args ...any) any {
 	p := sen.Parser{}
-	return p.MustParse(buf, args...)
+	return fixNumbers(p.MustParse(buf, args...))
 }
 
 // senParseReader is senParse for a reader.
 func senParseReader(r io.Reader, args ...any) any {
 	p := sen.Parser{}
-	return p.MustParseReader(r, args...)
+	return fixNumbers(p.MustParseReader(r, args...))
+}
+
+// fixNumbers replaces every json.Number in data. The ojg parsers deliver a
+// number of 19 or more digits as a json.Number which has no LISP counterpart
+// (bag-native returned nil for it) and which the SEN, JSON and pretty writers
+// write in three different ways. It becomes an int64 or float64 if it fits
+// and otherwise a string of its digits, the same form bignum and long-float
+// objects simplify to.
+func fixNumbers(data any) any {
+	switch td := data.(type) {
+	case json.Number:
+		str := string(td)
+		if !strings.ContainsAny(str, ".eE") {
+			if i, err := strconv.ParseInt(str, 10, 64); err == nil {
+				return i
+			}
+		} else if f, err := strconv.ParseFloat(str, 64); err == nil {
+			return f
+		}
+		return str
+	case []any:
+		for i, v := range td {
+			td[i] = fixNumbers(v)
+		}
+	case map[string]any:
+		for k, v := range td {
+			td[k] = fixNumbers(v)
+		}
+	}
+	return data
 }
